@@ -114,6 +114,8 @@ func newRichDoc(c *fw.Case) *richDoc {
 			grid[i] = line
 		}
 		row["grid"] = grid
+		// an object whose flattened member names meet keys that exist already
+		row["cfg"] = map[string]any{"db_host": "x", "db": map[string]any{"host": "y", "port": float64(c.Intn(9))}, "a_b": 1.0, "a": map[string]any{"b": 2.0, "c_d": 3.0, "c": map[string]any{"d": 4.0}}}
 		row["obj"].(map[string]any)["tags"] = []any{1.0, 1.0, 2.0, 3.0}
 	}
 	u := gen.RandTable(c.R, gen.TableSpec{Name: "u1", MaxRows: 4, NumCols: 1, StrCols: 1, StrStyle: gen.Plain, ColPrefix: "u"})
